@@ -16,407 +16,18 @@
 //!   merges identical constant allocations of upstream crates).
 #![allow(unexpected_cfgs, dead_code, clippy::all)]
 
-pub mod model {
-    use core::time::Duration;
+#[macro_use]
+mod select_macros;
+pub mod macros;
+pub mod model;
+pub mod time;
+pub mod sync;
+pub mod io;
+pub mod task;
+pub mod runtime;
+pub use task::spawn;
 
-    #[derive(Clone, Copy, PartialEq, Eq)]
-    pub enum Avail {
-        /// the resource is free whenever asked (nobody else holds / queues for it)
-        Always,
-        /// the resource is never granted (held by others forever)
-        Never,
-        /// the solver decides at every poll
-        Any,
-    }
-
-    pub struct State {
-        pub magic: [u64; 2],
-        /// virtual time since the clock epoch
-        pub now: Duration,
-        // ---- semaphore ghost state (one semaphore family per harness)
-        pub sem_created: u32,
-        pub sem_capacity: usize,
-        pub sem_avail: Avail,
-        pub sem_closed: bool,
-        /// permits granted to the caller under analysis and not yet dropped
-        pub permits_held: u32,
-        pub permits_granted_total: u32,
-        pub permits_released_total: u32,
-        /// acquire futures created / dropped without having been granted
-        pub acquires_started: u32,
-        pub acquires_cancelled: u32,
-        /// value reported by available_permits()
-        pub sem_reported_available: usize,
-        pub sem_added: usize,
-        // ---- async mutex ghost state
-        pub mutex_avail: Avail,
-        pub mutex_locked_by_me: u32,
-        pub mutex_lock_count: u32,
-        // ---- timers
-        pub sleeps_created: u32,
-        pub last_sleep_duration: Duration,
-        pub total_slept_requested: Duration,
-        pub timeouts_created: u32,
-        pub last_timeout_duration: Duration,
-        pub timers_fired: u32,
-        // ---- spawn
-        pub spawned: u32,
-    }
-
-    pub static mut ST: State = State {
-        magic: [0x544f4b494f5f4d4f, 0x44454c5f53544154],
-        now: Duration::new(1_000, 0),
-        sem_created: 0,
-        sem_capacity: 0,
-        sem_avail: Avail::Any,
-        sem_closed: false,
-        permits_held: 0,
-        permits_granted_total: 0,
-        permits_released_total: 0,
-        acquires_started: 0,
-        acquires_cancelled: 0,
-        sem_reported_available: 0,
-        sem_added: 0,
-        mutex_avail: Avail::Always,
-        mutex_locked_by_me: 0,
-        mutex_lock_count: 0,
-        sleeps_created: 0,
-        last_sleep_duration: Duration::ZERO,
-        total_slept_requested: Duration::ZERO,
-        timeouts_created: 0,
-        last_timeout_duration: Duration::ZERO,
-        timers_fired: 0,
-        spawned: 0,
-    };
-
-    pub fn st() -> &'static mut State {
-        unsafe { &mut *core::ptr::addr_of_mut!(ST) }
-    }
-    pub fn now() -> Duration {
-        st().now
-    }
-    pub fn set_now(t: Duration) {
-        st().now = t;
-    }
-    pub fn advance(d: Duration) {
-        let s = st();
-        s.now = s.now + d;
-    }
-    /// `std::time::Instant::now` replacement reading the same virtual clock.
-    pub fn std_instant_now() -> std::time::Instant {
-        unsafe { core::mem::zeroed::<std::time::Instant>() + st().now }
-    }
-    pub fn std_instant_at(t: Duration) -> std::time::Instant {
-        unsafe { core::mem::zeroed::<std::time::Instant>() + t }
-    }
-
-    #[cfg(kani)]
-    pub fn choose() -> bool {
-        kani::any()
-    }
-    #[cfg(not(kani))]
-    pub fn choose() -> bool {
-        true
-    }
-    pub fn decide(a: Avail) -> bool {
-        match a {
-            Avail::Always => true,
-            Avail::Never => false,
-            Avail::Any => choose(),
-        }
-    }
-}
-
-pub mod time {
-    use super::model;
-    use core::future::Future;
-    use core::pin::Pin;
-    use core::task::{Context, Poll};
-    pub use core::time::Duration;
-
-    pub mod error {
-        /// Error returned by `timeout`.
-        #[derive(Debug, PartialEq, Eq)]
-        pub struct Elapsed(pub(crate) ());
-        impl core::fmt::Display for Elapsed {
-            fn fmt(&self, f: &mut core::fmt::Formatter<'_>) -> core::fmt::Result {
-                f.write_str("deadline has elapsed")
-            }
-        }
-        impl std::error::Error for Elapsed {}
-    }
-
-    /// Model of `tokio::time::Sleep`: completes at the first poll with
-    /// `now >= deadline`, deadline fixed at creation.
-    #[derive(Debug)]
-    pub struct Sleep {
-        deadline: Duration,
-        fired: bool,
-    }
-    impl Sleep {
-        pub fn deadline_since_epoch(&self) -> Duration {
-            self.deadline
-        }
-        pub fn is_elapsed(&self) -> bool {
-            model::now() >= self.deadline
-        }
-        pub fn reset_after(self: Pin<&mut Self>, d: Duration) {
-            let me = unsafe { self.get_unchecked_mut() };
-            me.deadline = model::now().saturating_add(d);
-            me.fired = false;
-        }
-    }
-    impl Future for Sleep {
-        type Output = ();
-        fn poll(self: Pin<&mut Self>, _cx: &mut Context<'_>) -> Poll<()> {
-            let me = unsafe { self.get_unchecked_mut() };
-            if model::now() >= me.deadline {
-                if !me.fired {
-                    me.fired = true;
-                    model::st().timers_fired += 1;
-                }
-                Poll::Ready(())
-            } else {
-                Poll::Pending
-            }
-        }
-    }
-    pub fn sleep(duration: Duration) -> Sleep {
-        let s = model::st();
-        s.sleeps_created += 1;
-        s.last_sleep_duration = duration;
-        s.total_slept_requested = s.total_slept_requested.saturating_add(duration);
-        Sleep { deadline: s.now.saturating_add(duration), fired: false }
-    }
-
-    /// Model of `tokio::time::Timeout`: polls the value first, then the deadline.
-    pub struct Timeout<F> {
-        value: F,
-        deadline: Duration,
-    }
-    impl<F: Future> Future for Timeout<F> {
-        type Output = Result<F::Output, error::Elapsed>;
-        fn poll(self: Pin<&mut Self>, cx: &mut Context<'_>) -> Poll<Self::Output> {
-            let me = unsafe { self.get_unchecked_mut() };
-            let v = unsafe { Pin::new_unchecked(&mut me.value) };
-            if let Poll::Ready(x) = v.poll(cx) {
-                return Poll::Ready(Ok(x));
-            }
-            if model::now() >= me.deadline {
-                model::st().timers_fired += 1;
-                Poll::Ready(Err(error::Elapsed(())))
-            } else {
-                Poll::Pending
-            }
-        }
-    }
-    pub fn timeout<F: Future>(duration: Duration, future: F) -> Timeout<F> {
-        let s = model::st();
-        s.timeouts_created += 1;
-        s.last_timeout_duration = duration;
-        Timeout { value: future, deadline: s.now.saturating_add(duration) }
-    }
-}
-
-pub mod sync {
-    use super::model;
-    use core::future::Future;
-    use core::pin::Pin;
-    use core::task::{Context, Poll};
-    use std::sync::Arc;
-
-    // ------------------------------------------------------------------ Semaphore
-    #[derive(Debug)]
-    pub struct AcquireError(());
-    impl core::fmt::Display for AcquireError {
-        fn fmt(&self, f: &mut core::fmt::Formatter<'_>) -> core::fmt::Result {
-            f.write_str("semaphore closed")
-        }
-    }
-    impl std::error::Error for AcquireError {}
-    #[derive(Debug, PartialEq, Eq)]
-    pub enum TryAcquireError {
-        Closed,
-        NoPermits,
-    }
-
-    /// Environment-mode semaphore (see crate docs).
-    #[derive(Debug)]
-    pub struct Semaphore {
-        _capacity: usize,
-    }
-    #[derive(Debug)]
-    pub struct OwnedSemaphorePermit {
-        _sem: Arc<Semaphore>,
-    }
-    impl Drop for OwnedSemaphorePermit {
-        fn drop(&mut self) {
-            let s = model::st();
-            s.permits_held -= 1;
-            s.permits_released_total += 1;
-        }
-    }
-    pub struct AcquireOwned {
-        sem: Option<Arc<Semaphore>>,
-        done: bool,
-    }
-    impl Future for AcquireOwned {
-        type Output = Result<OwnedSemaphorePermit, AcquireError>;
-        fn poll(self: Pin<&mut Self>, _cx: &mut Context<'_>) -> Poll<Self::Output> {
-            let me = unsafe { self.get_unchecked_mut() };
-            let s = model::st();
-            if s.sem_closed {
-                me.done = true;
-                return Poll::Ready(Err(AcquireError(())));
-            }
-            if model::decide(s.sem_avail) {
-                me.done = true;
-                s.permits_held += 1;
-                s.permits_granted_total += 1;
-                Poll::Ready(Ok(OwnedSemaphorePermit { _sem: me.sem.take().unwrap() }))
-            } else {
-                Poll::Pending
-            }
-        }
-    }
-    impl Drop for AcquireOwned {
-        fn drop(&mut self) {
-            if !self.done {
-                // cancelled while queued: holds nothing (tokio returns partially assigned permits)
-                model::st().acquires_cancelled += 1;
-            }
-        }
-    }
-    impl Semaphore {
-        pub const MAX_PERMITS: usize = usize::MAX >> 3;
-        pub fn new(permits: usize) -> Self {
-            let s = model::st();
-            s.sem_created += 1;
-            s.sem_capacity = permits;
-            Semaphore { _capacity: permits }
-        }
-        pub fn available_permits(&self) -> usize {
-            model::st().sem_reported_available
-        }
-        pub fn acquire_owned(self: Arc<Self>) -> AcquireOwned {
-            model::st().acquires_started += 1;
-            AcquireOwned { sem: Some(self), done: false }
-        }
-        pub fn try_acquire_owned(self: Arc<Self>) -> Result<OwnedSemaphorePermit, TryAcquireError> {
-            let s = model::st();
-            if s.sem_closed {
-                return Err(TryAcquireError::Closed);
-            }
-            if model::decide(s.sem_avail) {
-                s.permits_held += 1;
-                s.permits_granted_total += 1;
-                Ok(OwnedSemaphorePermit { _sem: self })
-            } else {
-                Err(TryAcquireError::NoPermits)
-            }
-        }
-        pub fn add_permits(&self, n: usize) {
-            let s = model::st();
-            s.sem_added = s.sem_added.saturating_add(n);
-        }
-        pub fn close(&self) {
-            model::st().sem_closed = true;
-        }
-        pub fn is_closed(&self) -> bool {
-            model::st().sem_closed
-        }
-    }
-
-    // ------------------------------------------------------------------ Mutex
-    /// Environment-mode async mutex: `lock()` may stay pending while "another
-    /// caller" holds it (knob `mutex_avail`); the data itself is only ever
-    /// touched by the caller under analysis, interference on the protected
-    /// data is injected by the harness between polls.
-    pub struct Mutex<T: ?Sized> {
-        data: core::cell::UnsafeCell<T>,
-    }
-    unsafe impl<T: ?Sized + Send> Send for Mutex<T> {}
-    unsafe impl<T: ?Sized + Send> Sync for Mutex<T> {}
-    pub struct MutexGuard<'a, T: ?Sized> {
-        m: &'a Mutex<T>,
-    }
-    pub struct LockFuture<'a, T: ?Sized> {
-        m: &'a Mutex<T>,
-    }
-    impl<T> Mutex<T> {
-        pub fn new(t: T) -> Self {
-            Mutex { data: core::cell::UnsafeCell::new(t) }
-        }
-        pub fn into_inner(self) -> T {
-            self.data.into_inner()
-        }
-    }
-    impl<T: ?Sized> Mutex<T> {
-        pub fn lock(&self) -> LockFuture<'_, T> {
-            LockFuture { m: self }
-        }
-        pub fn try_lock(&self) -> Result<MutexGuard<'_, T>, TryLockError> {
-            let s = model::st();
-            if s.mutex_locked_by_me == 0 && model::decide(s.mutex_avail) {
-                s.mutex_locked_by_me += 1;
-                s.mutex_lock_count += 1;
-                Ok(MutexGuard { m: self })
-            } else {
-                Err(TryLockError(()))
-            }
-        }
-        /// harness access to the protected data (no locking)
-        pub fn model_peek(&self) -> &mut T {
-            unsafe { &mut *self.data.get() }
-        }
-    }
-    #[derive(Debug)]
-    pub struct TryLockError(());
-    impl<'a, T: ?Sized> Future for LockFuture<'a, T> {
-        type Output = MutexGuard<'a, T>;
-        fn poll(self: Pin<&mut Self>, _cx: &mut Context<'_>) -> Poll<Self::Output> {
-            let s = model::st();
-            if s.mutex_locked_by_me == 0 && model::decide(s.mutex_avail) {
-                s.mutex_locked_by_me += 1;
-                s.mutex_lock_count += 1;
-                Poll::Ready(MutexGuard { m: self.m })
-            } else {
-                Poll::Pending
-            }
-        }
-    }
-    impl<T: ?Sized> core::ops::Deref for MutexGuard<'_, T> {
-        type Target = T;
-        fn deref(&self) -> &T {
-            unsafe { &*self.m.data.get() }
-        }
-    }
-    impl<T: ?Sized> core::ops::DerefMut for MutexGuard<'_, T> {
-        fn deref_mut(&mut self) -> &mut T {
-            unsafe { &mut *self.m.data.get() }
-        }
-    }
-    impl<T: ?Sized> Drop for MutexGuard<'_, T> {
-        fn drop(&mut self) {
-            model::st().mutex_locked_by_me -= 1;
-        }
-    }
-    impl<T: ?Sized + core::fmt::Debug> core::fmt::Debug for Mutex<T> {
-        fn fmt(&self, f: &mut core::fmt::Formatter<'_>) -> core::fmt::Result {
-            f.write_str("Mutex(model)")
-        }
-    }
-    impl<T: Default> Default for Mutex<T> {
-        fn default() -> Self {
-            Mutex::new(T::default())
-        }
-    }
-}
-
-
-/// Only the trait names: `tower::make` (feature "make", enabled by the
-/// reconnect crate) uses them as bounds; nothing implements or calls them here.
-pub mod io {
-    pub trait AsyncRead {}
-    pub trait AsyncWrite {}
-}
+#[doc(hidden)]
+pub use tokio_macros::select_priv_clean_pattern;
+#[doc(hidden)]
+pub use tokio_macros::select_priv_declare_output_enum;
